@@ -23,7 +23,8 @@ from typing import Dict, List, NamedTuple, Optional, Set, Tuple
 from .program import FuncInfo, Program, dotted, norm, own_nodes
 from .util import ancestors, assignments_to, parents, stmt_text
 
-SET_ATTRS = {"_active_state_nodes", "_pending_send_cancels", "tags"}
+SET_ATTRS = {"_active_state_nodes", "_pending_send_cancels"}
+ENGINE_ONLY_SET_ATTRS = {"tags"}          # StateNode.tags is a set; the CLI's StateIR.tags is a tuple
 INSENSITIVE_FUNCS = {"any", "all", "len", "sum", "set", "frozenset", "bool", "isinstance", "id",
                      "debug", "info", "warning", "error", "exception", "critical"}
 
@@ -53,6 +54,8 @@ class SetOrder:
         if isinstance(e, (ast.Set, ast.SetComp)):
             return True
         if isinstance(e, ast.Attribute) and e.attr in SET_ATTRS:
+            return True
+        if isinstance(e, ast.Attribute) and e.attr in ENGINE_ONLY_SET_ATTRS and not f.module.name.startswith("cli"):
             return True
         if isinstance(e, ast.Call):
             fn = e.func
@@ -265,13 +268,9 @@ def sort_key_is_total(key: Optional[ast.AST], iterable: ast.AST) -> bool:
     """True when ties are impossible: the key (or its last tuple component) is the
     element's unique ``id`` string, or elements are themselves id strings."""
     if key is None:
-        # sorting plain strings (ids) is total; sorting objects without key would raise
-        if isinstance(iterable, (ast.GeneratorExp, ast.ListComp, ast.SetComp)):
-            elt = iterable.elt
-            return isinstance(elt, ast.Attribute) and elt.attr in ("id", "key")
-        if isinstance(iterable, ast.Attribute) and iterable.attr in ("current_state_ids", "_registry"):
-            return True
-        return True if isinstance(iterable, ast.Name) else False
+        # sorted() without a key over distinct elements (a set) is a total order whenever it is
+        # defined at all (strings, tuples of strings); sorting incomparable objects raises instead
+        return True
     if isinstance(key, ast.Lambda):
         body = key.body
         comps = body.elts if isinstance(body, ast.Tuple) else [body]
